@@ -301,7 +301,7 @@ func init() {
 			"kernel mmap/munmap behaviour and /proc/self/maps are trusted",
 		},
 		Builds:   func(string) []string { return []string{"checkptr"} },
-		NumCases: func(tier, build string) int { return vf.Tiered(tier, 17*24, 17*2000) },
+		NumCases: func(tier, build string) int { return vf.Tiered(tier, 17*24, 17*10000) },
 		Floor:    func(tier string) int { return vf.Tiered(tier, 100, 5000) },
 		Run:      runC11,
 	})
